@@ -349,7 +349,7 @@ def main(argv):
     rng = random.Random(seed)
     if a.replay:
         rp = json.load(open(a.replay))
-        cases = [rp["case"]] if "case" in rp else []
+        cases = [rp["case"]] if "case" in rp else ([rp] if "prog" in rp else [])     # a replay file or a corpus case
         if "numeric_case" in rp and hasattr(mod, "replay"):
             for f in mod.replay(rp["numeric_case"]) or []:
                 report(f, {"numeric_case": rp["numeric_case"], "oracle_failures": [f]}, True)
